@@ -113,7 +113,7 @@ func (c *UI) processCommand() error {
 	if err != nil {
 		return err
 	}
-	if cmdStr == "" {
+	if strings.TrimSpace(cmdStr) == "" {
 		return nil
 	}
 
